@@ -1,6 +1,7 @@
 package c20
 
 import (
+	"context"
 	"crypto/sha256"
 	"encoding/hex"
 	"encoding/json"
@@ -13,9 +14,12 @@ import (
 	appsv1 "k8s.io/api/apps/v1"
 	v1 "k8s.io/api/core/v1"
 	apiextensionsv1 "k8s.io/apiextensions-apiserver/pkg/apis/apiextensions/v1"
+	"k8s.io/apimachinery/pkg/api/meta"
 	metav1 "k8s.io/apimachinery/pkg/apis/meta/v1"
+	"k8s.io/apimachinery/pkg/runtime"
 	"k8s.io/utils/ptr"
 	"sigs.k8s.io/controller-runtime/pkg/client"
+	"sigs.k8s.io/controller-runtime/pkg/client/apiutil"
 	"sigs.k8s.io/controller-runtime/pkg/client/fake"
 	"sigs.k8s.io/controller-runtime/pkg/client/interceptor"
 
@@ -120,7 +124,35 @@ func newOperatorClient(objs []client.Object, l *callLog) (client.Client, client.
 		}
 	}
 	raw := b.Build()
-	return interceptor.NewClient(raw, countingFuncs(l)), raw
+	fn := countingFuncs(l)
+	// The operator reads through the manager's delegating client, i.e. from the informer cache,
+	// and controller-runtime's CacheReader.Get/List stamp the GroupVersionKind on every typed
+	// object they return (pkg/cache/internal/cache_reader.go). The fake client instead blanks
+	// TypeMeta of typed objects (ensureTypeMeta), which would make every key of
+	// known_types.GetKey(obj.GroupVersionKind(), ...) collide. Model the cache reader.
+	fn.Get = func(ctx context.Context, c client.WithWatch, key client.ObjectKey, obj client.Object, opts ...client.GetOption) error {
+		if err := c.Get(ctx, key, obj, opts...); err != nil {
+			return err
+		}
+		stampGVK(obj)
+		return nil
+	}
+	fn.List = func(ctx context.Context, c client.WithWatch, list client.ObjectList, opts ...client.ListOption) error {
+		if err := c.List(ctx, list, opts...); err != nil {
+			return err
+		}
+		return meta.EachListItem(list, func(o runtime.Object) error { stampGVK(o); return nil })
+	}
+	return interceptor.NewClient(raw, fn), raw
+}
+
+func stampGVK(o runtime.Object) {
+	if _, ok := o.(*metav1.PartialObjectMetadata); ok {
+		return
+	}
+	if gvk, err := apiutil.GVKForObject(o, operatorScheme); err == nil {
+		o.GetObjectKind().SetGroupVersionKind(gvk)
+	}
 }
 
 // crds that the operands probe for (prometheus operator installed or not).
@@ -176,6 +208,13 @@ func snapshotC(c client.Client) (map[string]string, error) {
 			delete(md, "resourceVersion")
 			delete(md, "managedFields")
 			delete(md, "creationTimestamp")
+			if an, ok := md["annotations"].(map[string]any); ok {
+				for k := range an {
+					if strings.Contains(k, "deprecation-timestamp") {
+						an[k] = "<wall-clock>"
+					}
+				}
+			}
 			delete(it, "kind")
 			delete(it, "apiVersion")
 			if kind == "Secret" {
@@ -241,19 +280,37 @@ func kindOfKey(k string) string { return strings.SplitN(k, " ", 2)[0] }
 
 // ---------------------------------------------------------------- cases
 
+// Start states. Each is a "+"-joined set of:
+//   - "empty"        nothing but the Config (and, if PromCRD, the two prometheus-operator CRDs);
+//   - "tls"          the three Config-owned webhook TLS secrets are already there (what a previous
+//     installation leaves; spares a 2048-bit RSA key generation per secret and Deploy);
+//   - "foreign"      unrelated objects of the managed kinds exist;
+//   - "deployed-c1"  Deploy(C1) ran before.
 type caseC struct {
 	C1      cfgC   `json:"c1"`
 	C2      cfgC   `json:"c2"`
-	Start   string `json:"start"` // empty | deployed-c1 | foreign | foreign+deployed-c1
+	Start   string `json:"start"`
 	PromCRD bool   `json:"prometheus_crds_installed"`
 }
+
+func (c caseC) has(tag string) bool { return strings.Contains("+"+c.Start+"+", "+"+tag+"+") }
 
 func (c caseC) String() string {
 	return fmt.Sprintf("start=%s promCRDs=%t C1=%s C2=%s", c.Start, c.PromCRD, c.C1, c.C2)
 }
 
-// deployOnce = one real DeployableOperands.Deploy with fresh operand instances (a new operator
-// process) or the given ones (same process).
+func seededSecrets() []client.Object {
+	owner := []metav1.OwnerReference{{APIVersion: kaiv1.GroupVersion.String(), Kind: "Config", Name: known_types.SingletonInstanceName,
+		UID: "kai-config-uid", Controller: ptr.To(true)}}
+	var out []client.Object
+	for _, n := range []string{"queue-webhook-tls-secret", "podgroup-webhook-tls-secret", "kai-admission-webhook-tls-secret"} {
+		out = append(out, &v1.Secret{ObjectMeta: metav1.ObjectMeta{Name: n, Namespace: kaiNS, OwnerReferences: owner},
+			Data: map[string][]byte{"tls.crt": []byte("-----BEGIN CERTIFICATE-----\nverif\n-----END CERTIFICATE-----\n"), "tls.key": []byte("verif-key")}})
+	}
+	return out
+}
+
+// deployOnce = one real DeployableOperands.Deploy (ConfigSpec defaults applied as Reconcile does).
 func deployOnce(d *deployable.DeployableOperands, c client.Client, cfg cfgC) (errStr string) {
 	defer func() {
 		if r := recover(); r != nil {
@@ -273,45 +330,80 @@ type resultC struct {
 	Objects   int
 	Hash      string
 	NoopCalls int
+	// PromRetention: objects kept by the documented Prometheus retention period (not judged)
+	PromRetention int
+}
+
+func (cs caseC) baseObjects() []client.Object {
+	base := []client.Object{cs.C2.config()}
+	if cs.PromCRD {
+		base = append(base, prometheusCRDs()...)
+	}
+	if cs.has("tls") {
+		base = append(base, seededSecrets()...)
+	}
+	if cs.has("foreign") {
+		base = append(base, foreignObjects()...)
+	}
+	return base
+}
+
+type refC struct {
+	snap    map[string]string
+	err     string
+	foreign map[string]string
+}
+
+var refCacheC = map[string]*refC{}
+
+// referenceC: Deploy(C2) on the same start state but without C1 ever having been deployed.
+func referenceC(cs caseC) (*refC, bool, error) {
+	k := fmt.Sprintf("%v|%t|%t|%t", cs.C2, cs.PromCRD, cs.has("tls"), cs.has("foreign"))
+	if r, ok := refCacheC[k]; ok {
+		return r, false, nil
+	}
+	r := &refC{}
+	c, raw := newOperatorClient(cs.baseObjects(), nil)
+	var err error
+	if cs.has("foreign") {
+		if r.foreign, err = snapshotC(raw); err != nil {
+			return nil, true, err
+		}
+		for key := range r.foreign {
+			if !strings.Contains(key, "foreign-") {
+				delete(r.foreign, key)
+			}
+		}
+	}
+	r.err = deployOnce(newDeployable(), c, cs.C2)
+	if r.snap, err = snapshotC(raw); err != nil {
+		return nil, true, err
+	}
+	refCacheC[k] = r
+	return r, true, nil
 }
 
 // runCaseC: the differential + fixpoint oracle for one (start, C1, C2).
 func runCaseC(cs caseC) (*resultC, error) {
 	res := &resultC{}
-	base := []client.Object{cs.C2.config()}
-	if cs.PromCRD {
-		base = append(base, prometheusCRDs()...)
-	}
-	var foreignBefore map[string]string
-	withForeign := strings.HasPrefix(cs.Start, "foreign")
-	if withForeign {
-		base = append(base, foreignObjects()...)
-	}
-
-	// reference run: Deploy(C2) from the start state without C1 ever deployed
-	refLog := &callLog{}
-	refC, refRaw := newOperatorClient(base, refLog)
-	if withForeign {
-		var err error
-		if foreignBefore, err = snapshotC(refRaw); err != nil {
-			return nil, err
-		}
-	}
-	if e := deployOnce(newDeployable(), refC, cs.C2); e != "" {
-		res.Findings = append(res.Findings, finding{"C20/operator-deploy-error", "Deploy(C2) from a cluster without operands failed: " + e})
-		return res, nil
-	}
-	res.Deploys++
-	want, err := snapshotC(refRaw)
+	ref, executed, err := referenceC(cs)
 	if err != nil {
 		return nil, err
 	}
+	if executed {
+		res.Deploys++
+	}
+	if ref.err != "" {
+		res.Findings = append(res.Findings, finding{"C20/operator-deploy-error", "Deploy(C2) on a cluster that never saw C1 failed: " + ref.err})
+		return res, nil
+	}
+	want := ref.snap
 
 	// run under test
 	log := &callLog{}
-	c, raw := newOperatorClient(base, log)
+	c, raw := newOperatorClient(cs.baseObjects(), log)
 	d := newDeployable()
-	if strings.HasSuffix(cs.Start, "deployed-c1") {
+	if cs.has("deployed-c1") {
 		if e := deployOnce(d, c, cs.C1); e != "" {
 			res.Findings = append(res.Findings, finding{"C20/operator-deploy-error", "Deploy(C1) failed: " + e})
 			return res, nil
@@ -329,7 +421,20 @@ func runCaseC(cs caseC) (*resultC, error) {
 	}
 	res.Objects = len(got)
 	res.Hash = snapHash(got)
-	if d := diffSnap(got, want); len(d) > 0 {
+	d0 := diffSnap(got, want)
+	var dd []string
+	for _, x := range d0 {
+		// documented exception: a Prometheus instance that was enabled and is then switched off is kept
+		// for a 30-day retention period (prometheus/resources.go deprecatePrometheusForKAIConfig), with
+		// its ServiceAccount / ServiceMonitors / Service: history- and clock-dependent BY DESIGN.
+		if cs.C1.Mask&(1<<7) != 0 && cs.C2.Mask&(1<<7) == 0 && cs.has("deployed-c1") && strings.HasPrefix(x, "only-in-first:") &&
+			(strings.Contains(x, "Prometheus ") || strings.Contains(x, "ServiceMonitor ") || strings.Contains(x, "prometheus")) {
+			res.PromRetention++
+			continue
+		}
+		dd = append(dd, x)
+	}
+	if d := dd; len(d) > 0 {
 		kinds := map[string]bool{}
 		for _, x := range d {
 			kinds[strings.SplitN(x, ":", 2)[0]+":"+kindOfKey(strings.SplitN(x, ":", 2)[1])] = true
@@ -356,64 +461,80 @@ func runCaseC(cs caseC) (*resultC, error) {
 		}
 		who := [...]string{"same-process", "restarted-operator"}[i]
 		if len(log.calls) > 0 {
-			verbs := map[string]bool{}
-			for _, cl := range log.calls {
-				f := strings.Fields(cl)
-				verbs[f[0]+" "+f[1]] = true
-			}
-			vs := []string{}
-			for v := range verbs {
-				vs = append(vs, v)
-			}
-			sort.Strings(vs)
 			if len(diffSnap(again, got)) == 0 {
 				res.NoopCalls += len(log.calls)
 			}
-			res.Findings = append(res.Findings, finding{"C20/operator-repeated-deploy-writes " + who + " calls=" + strings.Join(vs, ","),
-				fmt.Sprintf("a repeated Deploy of the unchanged configuration issued %d mutating calls: %v", len(log.calls), log.calls)})
+			sort.Strings(log.calls)
+			for _, cl := range log.calls {
+				f := strings.Fields(cl) // verb Kind ns/name
+				obj := f[1]
+				if f[1] == "ServiceAccount" {
+					obj += "/" + f[2][strings.Index(f[2], "/")+1:]
+				}
+				res.Findings = append(res.Findings, finding{"C20/operator-repeated-deploy-writes call=" + f[0] + " object=" + obj,
+					fmt.Sprintf("a repeated Deploy of the unchanged configuration (%s) issued %d mutating calls although no object changes: %v", who, len(log.calls), log.calls)})
+			}
 		}
 		if dfs := diffSnap(again, got); len(dfs) > 0 {
 			res.Findings = append(res.Findings, finding{"C20/operator-repeated-deploy-changes-objects " + who, fmt.Sprintf("objects changed by a repeated Deploy: %v", dfs)})
 		}
 		got = again
 	}
-	if withForeign {
-		for k, v := range foreignBefore {
-			if got[k] != v {
-				res.Findings = append(res.Findings, finding{"C20/operator-touches-foreign-object kind=" + kindOfKey(k), "foreign object changed or deleted: " + k})
-			}
+	for k, v := range ref.foreign {
+		if got[k] != v {
+			res.Findings = append(res.Findings, finding{"C20/operator-touches-foreign-object kind=" + kindOfKey(k), "foreign object changed or deleted: " + k})
 		}
 	}
 	return res, nil
 }
 
-// casesC: the lattice. quick: all 256 switch subsets as C2 from {empty, foreign}; for C1->C2 the
-// pairs where C1 is all-on, all-off, or differs from C2 in exactly one switch, or only in the
-// variant; thorough adds every pair of subsets over the 7 services (prometheus off).
+func popcount(m uint) int {
+	n := 0
+	for ; m != 0; m &= m - 1 {
+		n++
+	}
+	return n
+}
+
+// casesC: the lattice over the 8 switches (+ a variant bit for non-switch fields).
+//   - every one of the 256 switch subsets as C2: Deploy from "tls" and from "tls+foreign", then twice more;
+//   - truly empty cluster (certificate generation path): all-off, all-on, the 8 single-switch subsets,
+//     with and without the prometheus-operator CRDs; and all-on -> each single-switch subset;
+//   - C1 -> C2 for every C2 with C1 in {all-on, all-off, same switches with other variant};
+//   - C1 -> C2 where C1 differs from C2 in exactly one switch: quick for the C2 with <=2 or >=6
+//     switches on (74 subsets), thorough for all 256;
+//   - thorough additionally: every ordered pair of subsets of the 7 services (prometheus off).
 func casesC(tier string) []caseC {
 	var out []caseC
 	all := uint(1<<uint(len(switchNames))) - 1
-	for m := uint(0); m <= all; m++ {
+	singles := []uint{0, all}
+	for i := range switchNames {
+		singles = append(singles, 1<<uint(i))
+	}
+	for _, m := range singles {
 		for _, prom := range []bool{false, true} {
-			if !prom && m&(1<<7) != 0 && m != all && m != 1<<7 {
-				continue // prometheus requested without its CRDs: two representatives are enough
+			out = append(out, caseC{C1: cfgC{Mask: m}, C2: cfgC{Mask: m}, Start: "empty", PromCRD: prom})
+		}
+		out = append(out, caseC{C1: cfgC{Mask: all}, C2: cfgC{Mask: m}, Start: "empty+deployed-c1", PromCRD: true})
+	}
+	for m := uint(0); m <= all; m++ {
+		c2 := cfgC{Mask: m}
+		out = append(out, caseC{C1: c2, C2: c2, Start: "tls", PromCRD: true})
+		out = append(out, caseC{C1: c2, C2: c2, Start: "tls+foreign", PromCRD: true})
+		for _, c1 := range []cfgC{{Mask: all}, {Mask: 0}, {Mask: m, Variant: 1}} {
+			out = append(out, caseC{C1: c1, C2: c2, Start: "tls+deployed-c1", PromCRD: true})
+		}
+		out = append(out, caseC{C1: cfgC{Mask: all}, C2: cfgC{Mask: m, Variant: 1}, Start: "tls+foreign+deployed-c1", PromCRD: true})
+		if n := popcount(m); tier != "quick" || n <= 2 || n >= 6 {
+			for i := range switchNames {
+				out = append(out, caseC{C1: cfgC{Mask: m ^ (1 << uint(i))}, C2: c2, Start: "tls+deployed-c1", PromCRD: true})
 			}
-			out = append(out, caseC{C2: cfgC{Mask: m}, C1: cfgC{Mask: m}, Start: "empty", PromCRD: prom})
 		}
-		out = append(out, caseC{C2: cfgC{Mask: m}, C1: cfgC{Mask: m}, Start: "foreign", PromCRD: true})
-		c1s := []cfgC{{Mask: all}, {Mask: 0}, {Mask: m, Variant: 1}}
-		for i := range switchNames {
-			c1s = append(c1s, cfgC{Mask: m ^ (1 << uint(i))})
-		}
-		for _, c1 := range c1s {
-			out = append(out, caseC{C1: c1, C2: cfgC{Mask: m}, Start: "deployed-c1", PromCRD: true})
-		}
-		out = append(out, caseC{C1: cfgC{Mask: all}, C2: cfgC{Mask: m, Variant: 1}, Start: "foreign+deployed-c1", PromCRD: true})
 	}
 	if tier != "quick" {
 		for m1 := uint(0); m1 < 128; m1++ {
 			for m2 := uint(0); m2 < 128; m2++ {
-				out = append(out, caseC{C1: cfgC{Mask: m1}, C2: cfgC{Mask: m2}, Start: "deployed-c1", PromCRD: true})
+				out = append(out, caseC{C1: cfgC{Mask: m1}, C2: cfgC{Mask: m2}, Start: "tls+deployed-c1", PromCRD: true})
 			}
 		}
 	}
@@ -424,8 +545,8 @@ func exploreC(tier string, chunk, chunks int) *unitStats {
 	u := &unitStats{Part: "C", Unit: fmt.Sprintf("chunk %d/%d", chunk, chunks)}
 	seenKeys := map[string]bool{}
 	hashes := map[string]bool{}
-	for i, cs := range casesC(tier) {
-		if i%chunks != chunk {
+	for _, cs := range casesC(tier) {
+		if int(cs.C2.Mask)%chunks != chunk { // all cases of one C2 share a worker (reference cache)
 			continue
 		}
 		if outOfTime() {
@@ -442,11 +563,17 @@ func exploreC(tier string, chunk, chunks int) *unitStats {
 		u.RealTransitions += r.Deploys
 		u.Fixpoints++
 		u.NoopWrites += r.NoopCalls
+		if r.PromRetention > 0 {
+			u.inc("cases_with_prometheus_retention_leftovers_not_judged", 1)
+		}
 		if r.Objects > 0 {
 			u.Nontrivial++
 		}
 		hashes[r.Hash] = true
 		u.inc("start_"+cs.Start, 1)
+		if cs.C1 != cs.C2 {
+			u.inc("config_changes_C1_to_C2", 1)
+		}
 		for _, fd := range r.Findings {
 			u.inc("violating_cases", 1)
 			if seenKeys[fd.Key] {
@@ -457,8 +584,8 @@ func exploreC(tier string, chunk, chunks int) *unitStats {
 			u.Violations = append(u.Violations, engine.Violation{Property: "C20", Key: fd.Key, Message: fd.Msg + " | case: " + cs.String(),
 				Replay: replayFile{Part: "C", CaseC: &cc, History: []string{"start=" + cs.Start, "Deploy(C1)", "Deploy(C2)", "Deploy(C2)", "Deploy(C2) as restarted operator"}, Expect: fd.Key}})
 		}
-		if len(u.Samples) < 1 && cs.Start == "deployed-c1" && r.Objects > 3 {
-			u.Samples = append(u.Samples, map[string]any{"part": "C", "case": cs.String(), "owned_objects_after": r.Objects, "state_hash": r.Hash, "deploys": r.Deploys})
+		if len(u.Samples) < 1 && cs.has("deployed-c1") && r.Objects > 8 && cs.C1.Mask != cs.C2.Mask {
+			u.Samples = append(u.Samples, map[string]any{"part": "C", "case": cs.String(), "objects_after": r.Objects, "state_hash": r.Hash, "deploys": r.Deploys})
 		}
 	}
 	for h := range hashes {
